@@ -2022,6 +2022,10 @@ class Interp:
             if not isinstance(c, ClassV):
                 raise AnalysisError(f"{self.cur_func()}:{n.lineno}: super() with a non-class first argument")
             return SuperV(c.info, inst)
+        if isinstance(n.func, ast.Name) and n.func.id in ("all", "any") and len(n.args) == 1 and not n.keywords and isinstance(n.args[0], ast.GeneratorExp) and len(n.args[0].generators) == 1:
+            r = self._all_any_lazily(n, env, n.func.id == "all")
+            if r is not None:
+                return r
         callee = self.eval(n.func, env)
         args = self._elts(n.args, env)
         kwargs = {}
@@ -2035,6 +2039,49 @@ class Interp:
             else:
                 kwargs[kw.arg] = self.eval(kw.value, env)
         return self.call(callee, args, kwargs, n, env)
+
+    def _all_any_lazily(self, n, env, want_all):
+        """all(<generator over a literal sequence>) / any(...): the generator is consumed element by element and left at
+        the first element that settles the answer - the elements after it are never evaluated (nor are the tests a
+        helper called for them would make).  None when the sequence is not literal (the caller evaluates the call as
+        before) or the name is re-bound."""
+        try:
+            if env.lookup(n.func.id) is not None:
+                return None
+        except Exception:
+            pass
+        comp = n.args[0]
+        gen = comp.generators[0]
+        if not isinstance(gen.iter, (ast.Tuple, ast.List, ast.Name, ast.Attribute)):
+            return None
+        # only where evaluating an element takes decisions of its own (it calls a function of the package): a plain
+        # expression is one truth value, and the whole all(...) stays the single test it was
+        calls_own = False
+        for c in ast.walk(comp.elt):
+            if isinstance(c, ast.Call) and isinstance(c.func, (ast.Name, ast.Attribute)):
+                try:
+                    if isinstance(self.eval(c.func, env), (FuncV, LambdaV, PartialV)):
+                        calls_own = True
+                        break
+                except (AnalysisError, nf.NFError):
+                    return None
+        if not calls_own:
+            return None
+        it = self.eval(gen.iter, env)
+        if not (isinstance(it, TupV) and not it.rowview and not it.arr and len(it.items) <= 24):
+            return None
+        self.log("for_iter", comp, iter=it, comprehension=True)
+        sub = Env(env, env.module, env.func)
+        for x in it.items:
+            self._assign(gen.target, x, sub, comp)
+            if not all(self.decide(self.eval(c, sub), c) for c in gen.ifs):
+                continue
+            t = self.decide(self.eval(comp.elt, sub), comp.elt)
+            if want_all and not t:
+                return BoolV("const", False)
+            if not want_all and t:
+                return BoolV("const", True)
+        return BoolV("const", want_all)
 
     def bind_internal(self, fi: FunctionInfo, args, kwargs, has_self, node):
         params = list(fi.params)
